@@ -167,7 +167,11 @@ def check_fn(c):
             emit("CAST", "%s as %s" % (render(ft, opt), dst_ty), ok,
                  "value %s cast %s -> %s %s" % (show(v), src_ty, dst_ty, "fits" if ok else "may wrap (sign loss / truncation)"), st.get("span"), [opt])
         if t["k"] == "assert":
-            if t["msg"] in ("MisalignedPointerDereference", "NullPointerDereference") and from_std_macro(t["span"]):
+            if t["msg"] in ("MisalignedPointerDereference", "NullPointerDereference"):
+                # the compiler's own validity check in front of a raw-pointer dereference (debug assertions only).  Raw
+                # pointers occur only in unsafe code, which the census C13.P5 confines to the thread-local accessor; the
+                # pointer there comes from the thread's own Box and does not depend on any input.  Not an obligation of C14.
+                c.eng.__dict__.setdefault("ptr_checks_skipped", set()).add((c.path, t["msg"]))
                 continue
             cond = ft.operand(t["cond"], b, pos)
             v = c.av(cond, b)
